@@ -330,10 +330,12 @@ def check(ctx):
               'the hashed path is not <dir>/<hash>/<file name>')
 
     zd = repo.cls('dataflows.processors.dumpers.to_zip:ZipDumper')
-    zw = zd.methods['write_file_to_output']
+    from sa.normalize import call_idioms as _ciz
+    zw = _ciz(ctx, ctx.N(zd.methods['write_file_to_output']))      # (options collected in a dict and passed with **)
     from sa.pattern import has_expr as _he
-    run.check(_he('self.zip_file.write(%s, arcname=%s, compress_type=___)' % (zw.params[1], zw.params[2]), zw.node) or
-              _he('self.zip_file.write(%s, arcname=%s)' % (zw.params[1], zw.params[2]), zw.node), 'R19c', zw.where, zw.qualname,
+    _zc = [c_ for c_ in ast.walk(zw.node) if isinstance(c_, ast.Call) and u(c_.func) == 'self.zip_file.write']
+    run.check(len(_zc) == 1 and _zc[0].args and pseudo(_zc[0].args[0]) == zw.params[1] and
+              {k_.arg: pseudo(k_.value) for k_ in _zc[0].keywords}.get('arcname') == zw.params[2], 'R19c', zw.where, zw.qualname,
               'zip_file.write(filename, arcname=path)', 'the zip member is not stored under the path recorded in the descriptor')
     zf = zd.methods['finalize']
     run.check(_he('self.zip_file.close()', zf.node), 'R19c', zf.where, zf.qualname, 'zip closed on finalize',
